@@ -16,14 +16,22 @@ theorem base_budget : 56 ≤ maxBaseSize + 1 := by decide
 /-- Assumptions about the interfaces, all satisfied by ed25519 / secp256r1 / bls and by the
 reference VM (checked by the harness on every run):
 * `authFactory.MaxUnits()` bounds the size and compute units of the auth it signs;
-* the sponsor's state keys have the max-chunks the rules declare;
+* the factory's address is the actor of the auths it signs;
+* the sponsor's state keys are well-formed and have the max-chunks the rules declare;
+* the max-chunks of an action's keys do not depend on the action id;
 * the base is a real `Base` (int64 timestamp, 32-byte chain id, 8-byte fee). -/
-structure Assumptions {A Au : Type} (env : Env A Au) (r : Rules) (t : Tx A Au) (authBw authCompute : Nat) : Prop where
+structure Assumptions {A Au : Type} (env : Env A Au) (r : Rules) (t : Tx A Au) (addr : Bytes)
+    (authBw authCompute : Nat) : Prop where
+  /-- `authFactory.Address()` (the actor `EstimateUnits` asks the actions with) is the actor of
+  the auth the factory signs (the actor `Units` asks with) -/
+  actorEq : env.actor t.auth = addr
   authSize : (env.pu.bytes t.auth).length ≤ authBw
   authComp : env.authCompute t.auth ≤ authCompute
-  sponsor : (env.sponsorKeys t.auth).map env.chunks = r.sponsorChunks
-  /-- the max-chunks of an action's state keys do not depend on the action id (the keys may) -/
-  keyChunks : ∀ a id id', (env.keys a id).map env.chunks = (env.keys a id').map env.chunks
+  /-- the sponsor's keys are well-formed and have the max-chunks the rules declare -/
+  sponsor : (env.sponsorKeys t.auth).map env.chunks = r.sponsorChunks.map some
+  /-- the max-chunks (and well-formedness) of an action's state keys do not depend on the action
+  id (the keys may) -/
+  keyChunks : ∀ a actor id id', (env.keys a actor id).map env.chunks = (env.keys a actor id').map env.chunks
   ts : -(2 ^ 63 : Int) ≤ t.base.timestamp ∧ t.base.timestamp < 2 ^ 63
   chainID : t.base.chainID.length = 32
   maxFee : t.base.maxFee.length = 8
@@ -31,8 +39,8 @@ structure Assumptions {A Au : Type} (env : Env A Au) (r : Rules) (t : Tx A Au) (
   noWrap : maxBaseSize + 1 + sum ((t.actions.map fun a => (env.pa.bytes a).length).map actionFrame) +
     (1 + sizeUint authBw + authBw) < 2 ^ 64
 
-theorem bandwidth_le {A Au : Type} (env : Env A Au) (r : Rules) (t : Tx A Au) (bw ac : Nat)
-    (h : Assumptions env r t bw ac) :
+theorem bandwidth_le {A Au : Type} (env : Env A Au) (r : Rules) (t : Tx A Au) (addr : Bytes) (bw ac : Nat)
+    (h : Assumptions env r t addr bw ac) :
     (encodeTx env.pa env.pu t).length ≤ estBandwidth (t.actions.map fun a => (env.pa.bytes a).length) bw := by
   rw [encodeTx_length]
   unfold estBandwidth
@@ -50,89 +58,127 @@ theorem bandwidth_le {A Au : Type} (env : Env A Au) (r : Rules) (t : Tx A Au) (b
     split <;> omega
   omega
 
-theorem storage_le {A Au : Type} (env : Env A Au) (r : Rules) (t : Tx A Au) (bw ac : Nat)
-    (h : Assumptions env r t bw ac) (keyU valU : Nat) :
-    storage keyU valU ((stateKeys env t).map env.chunks) ≤
-      storage keyU valU ((withIdx 0 t.actions).flatMap
-        (fun ai => (env.keys ai.1 (env.actionID emptyID ai.2)).map env.chunks) ++ r.sponsorChunks) := by
-  have e : (withIdx 0 t.actions).flatMap
-        (fun ai => (env.keys ai.1 (env.actionID emptyID ai.2)).map env.chunks) ++ r.sponsorChunks =
-      ((withIdx 0 t.actions).flatMap
-        (fun ai => env.keys ai.1 (env.actionID (env.txID (encodeTx env.pa env.pu t)) ai.2))
-        ++ env.sponsorKeys t.auth).map env.chunks := by
-    rw [List.map_append, h.sponsor, List.map_flatMap]
+/-- the keys `Units` charges all have chunks, and their storage cost is at most that of the
+chunk list the estimate is computed from -/
+theorem storage_le {A Au : Type} (env : Env A Au) (r : Rules) (t : Tx A Au) (addr : Bytes) (bw ac : Nat)
+    (h : Assumptions env r t addr bw ac) {css : List (List Nat)}
+    (hcss : mapM? (fun ai => mapM? env.chunks (env.keys ai.1 addr (env.actionID emptyID ai.2)))
+      (withIdx 0 t.actions) = some css) :
+    ∃ cs, mapM? env.chunks (stateKeys env t) = some cs ∧
+      ∀ keyU valU, storage keyU valU cs ≤ storage keyU valU (css.flatten ++ r.sponsorChunks) := by
+  let c' : Bytes → Nat := fun k => (env.chunks k).getD 0
+  have hL : ((withIdx 0 t.actions).flatMap
+        (fun ai => env.keys ai.1 (env.actor t.auth) (env.actionID (env.txID (encodeTx env.pa env.pu t)) ai.2))
+        ++ env.sponsorKeys t.auth).map env.chunks = (css.flatten ++ r.sponsorChunks).map some := by
+    rw [List.map_append, h.sponsor, List.map_append, ← flatMap_chunks env.chunks _ _ _ hcss,
+      List.map_flatMap, List.map_flatMap, h.actorEq]
     congr 1
-    exact flatMap_congr' _ (fun ai _ => h.keyChunks ai.1 _ _)
-  rw [e]
-  unfold storage stateKeys
-  rw [List.map_map, List.map_map]
-  exact sum_dedup_le _ _
+    exact flatMap_congr' _ (fun ai _ => h.keyChunks ai.1 _ _ _)
+  obtain ⟨htot, hX⟩ := chunks_total hL
+  refine ⟨(stateKeys env t).map c', ?_, ?_⟩
+  · exact mapM?_of_forall c' _ (fun k hk => htot k (mem_dedup hk))
+  · intro keyU valU
+    rw [hX]
+    unfold storage stateKeys
+    rw [List.map_map, List.map_map]
+    exact sum_dedup_le _ _
 
 /-- **estimate_ge_units**: whenever `EstimateUnits` succeeds, `Units` of the transaction signed
 over the same actions succeeds and is at most the estimate in every dimension — for all action
 lists (any number, sizes, compute units and key sets, with keys shared between actions or
 derived from the action id), all
 auths within their factory's `MaxUnits`, and all rule values. -/
-theorem estimate_ge_units {A Au : Type} (env : Env A Au) (r : Rules) (t : Tx A Au) (bw ac : Nat)
-    (h : Assumptions env r t bw ac) {e : Dims} (he : estimateUnits env r t.actions bw ac = some e) :
+theorem estimate_ge_units {A Au : Type} (env : Env A Au) (r : Rules) (t : Tx A Au) (addr : Bytes) (bw ac : Nat)
+    (h : Assumptions env r t addr bw ac) {e : Dims} (he : estimateUnits env r t.actions addr bw ac = some e) :
     ∃ u, units env r t = some u ∧ u.le e := by
   unfold estimateUnits at he
   simp only at he
+  cases hcss : mapM? (fun ai => mapM? env.chunks (env.keys ai.1 addr (env.actionID emptyID ai.2)))
+      (withIdx 0 t.actions) with
+  | none => simp [hcss] at he
+  | some css =>
+  simp only [hcss] at he
+  obtain ⟨cs, hcs, hst⟩ := storage_le env r t addr bw ac h hcss
   cases h1 : checked (r.baseCompute + sum (t.actions.map env.compute) + ac) with
   | none => simp [h1] at he
   | some c =>
     simp only [h1] at he
-    cases h2 : checked (storage r.keyRead r.valRead
-        ((withIdx 0 t.actions).flatMap
-          (fun ai => (env.keys ai.1 (env.actionID emptyID ai.2)).map env.chunks) ++ r.sponsorChunks)) with
+    cases h2 : checked (storage r.keyRead r.valRead (css.flatten ++ r.sponsorChunks)) with
     | none => simp [h2] at he
     | some rd =>
       simp only [h2] at he
-      cases h3 : checked (storage r.keyAlloc r.valAlloc
-          ((withIdx 0 t.actions).flatMap
-          (fun ai => (env.keys ai.1 (env.actionID emptyID ai.2)).map env.chunks) ++ r.sponsorChunks)) with
+      cases h3 : checked (storage r.keyAlloc r.valAlloc (css.flatten ++ r.sponsorChunks)) with
       | none => simp [h3] at he
       | some al =>
         simp only [h3] at he
-        cases h4 : checked (storage r.keyWrite r.valWrite
-            ((withIdx 0 t.actions).flatMap
-          (fun ai => (env.keys ai.1 (env.actionID emptyID ai.2)).map env.chunks) ++ r.sponsorChunks)) with
+        cases h4 : checked (storage r.keyWrite r.valWrite (css.flatten ++ r.sponsorChunks)) with
         | none => simp [h4] at he
         | some wr =>
           simp only [h4, Option.some.injEq] at he
           subst he
           have hc := checked_mono (a := r.baseCompute + sum (t.actions.map env.compute) + env.authCompute t.auth)
             (by have := h.authComp; omega) h1
-          have hr := checked_mono (storage_le env r t bw ac h r.keyRead r.valRead) h2
-          have ha := checked_mono (storage_le env r t bw ac h r.keyAlloc r.valAlloc) h3
-          have hw := checked_mono (storage_le env r t bw ac h r.keyWrite r.valWrite) h4
+          have hr := checked_mono (hst r.keyRead r.valRead) h2
+          have ha := checked_mono (hst r.keyAlloc r.valAlloc) h3
+          have hw := checked_mono (hst r.keyWrite r.valWrite) h4
           have hu : units env r t = some ⟨(encodeTx env.pa env.pu t).length,
               r.baseCompute + sum (t.actions.map env.compute) + env.authCompute t.auth,
-              storage r.keyRead r.valRead ((stateKeys env t).map env.chunks),
-              storage r.keyAlloc r.valAlloc ((stateKeys env t).map env.chunks),
-              storage r.keyWrite r.valWrite ((stateKeys env t).map env.chunks)⟩ := by
+              storage r.keyRead r.valRead cs, storage r.keyAlloc r.valAlloc cs,
+              storage r.keyWrite r.valWrite cs⟩ := by
             unfold units
-            simp only [hc.1, hr.1, ha.1, hw.1]
-          exact ⟨_, hu, bandwidth_le env r t bw ac h, hc.2, hr.2, ha.2, hw.2⟩
+            simp only [hcs, hc.1, hr.1, ha.1, hw.1]
+          exact ⟨_, hu, bandwidth_le env r t addr bw ac h, hc.2, hr.2, ha.2, hw.2⟩
 
-/-- `fees.MulSum(prices, units)` without the overflow error -/
-def mulSum (p d : Dims) : Nat :=
-  p.bandwidth * d.bandwidth + p.compute * d.compute + p.read * d.read + p.allocate * d.allocate + p.write * d.write
-
-/-- **maxfee_covers_fee**: the `MaxFee` `GenerateTransaction` sets from the estimate is at least
-the fee charged for the actual units at the same unit prices. -/
-theorem maxfee_covers_fee {A Au : Type} (env : Env A Au) (r : Rules) (t : Tx A Au) (bw ac : Nat)
-    (h : Assumptions env r t bw ac) {e : Dims} (he : estimateUnits env r t.actions bw ac = some e)
-    (prices : Dims) : ∃ u, units env r t = some u ∧ mulSum prices u ≤ mulSum prices e := by
-  obtain ⟨u, hu, h1, h2, h3, h4, h5⟩ := estimate_ge_units env r t bw ac h he
-  refine ⟨u, hu, ?_⟩
+theorem mulSum_mono (p : Dims) {u e : Dims} (h : u.le e) : mulSum p u ≤ mulSum p e := by
+  obtain ⟨h1, h2, h3, h4, h5⟩ := h
   unfold mulSum
-  have := Nat.mul_le_mul_left prices.bandwidth h1
-  have := Nat.mul_le_mul_left prices.compute h2
-  have := Nat.mul_le_mul_left prices.read h3
-  have := Nat.mul_le_mul_left prices.allocate h4
-  have := Nat.mul_le_mul_left prices.write h5
+  have := Nat.mul_le_mul_left p.bandwidth h1
+  have := Nat.mul_le_mul_left p.compute h2
+  have := Nat.mul_le_mul_left p.read h3
+  have := Nat.mul_le_mul_left p.allocate h4
+  have := Nat.mul_le_mul_left p.write h5
   omega
+
+/-- **maxfee_covers_fee** (arithmetic core): at any unit prices the fee of the actual units is
+at most the fee of the estimate. -/
+theorem maxfee_covers_fee {A Au : Type} (env : Env A Au) (r : Rules) (t : Tx A Au) (addr : Bytes) (bw ac : Nat)
+    (h : Assumptions env r t addr bw ac) {e : Dims} (he : estimateUnits env r t.actions addr bw ac = some e)
+    (prices : Dims) : ∃ u, units env r t = some u ∧ mulSum prices u ≤ mulSum prices e := by
+  obtain ⟨u, hu, hle⟩ := estimate_ge_units env r t addr bw ac h he
+  exact ⟨u, hu, mulSum_mono prices hle⟩
+
+/-- **generated_tx_can_pay**: for every rule source, price vector, timestamp, action list and
+auth factory, if `GenerateTransaction` returns a transaction then — under the rules of the same
+timestamp — `Units` of that transaction succeeds, `fees.MulSum(prices, units)` does not overflow
+and is at most the transaction's `MaxFee` (the uint64 stored in its `Base`).  The assumptions are
+about the returned transaction (its auth is what the factory signed). -/
+theorem generated_tx_can_pay {A Au : Type} (env : Env A Au) (rs : RuleSource) (prices : Dims) (ts : Int)
+    (actions : List A) (fac : Factory Au) {t : Tx A Au}
+    (hg : generateTransaction env rs prices ts actions fac = some t)
+    (h : Assumptions env (rs.rulesAt ts) t fac.address fac.maxBandwidth fac.maxCompute) :
+    ∃ u fee, units env (rs.rulesAt ts) t = some u ∧ mulSumChecked prices u = some fee ∧
+      fee ≤ ofLE64 t.base.maxFee := by
+  unfold generateTransaction at hg
+  cases he : estimateUnits env (rs.rulesAt ts) actions fac.address fac.maxBandwidth fac.maxCompute with
+  | none => simp [he] at hg
+  | some est =>
+    simp only [he] at hg
+    cases hm : mulSumChecked prices est with
+    | none => simp [hm] at hg
+    | some maxFee =>
+      simp only [hm, Option.some.injEq] at hg
+      subst hg
+      obtain ⟨u, hu, hle⟩ := estimate_ge_units env (rs.rulesAt ts) _ fac.address fac.maxBandwidth
+        fac.maxCompute h he
+      have hmono := mulSum_mono prices hle
+      obtain ⟨hfee, hfle⟩ := checked_mono hmono hm
+      have hmf : maxFee < 2 ^ 64 := by
+        unfold mulSumChecked checked at hm
+        split at hm
+        · simp only [Option.some.injEq] at hm; subst hm
+          rename_i hb; unfold maxU64 at hb; omega
+        · cases hm
+      exact ⟨u, mulSum prices u, hu, hfee, by simp only [ofLE64_le64 hmf]; exact hfle⟩
 
 /-- **c14_counterexample_unrepaired**: the estimate of the unrepaired code (action and auth
 framing omitted) is below the real size for 13 actions of 128 bytes with a 145-byte (bls) auth
@@ -149,17 +195,23 @@ theorem c14_counterexample_unrepaired :
 /-! non-vacuity: the assumptions are satisfiable and the estimate succeeds -/
 def exEnv : Env Nat Nat :=
   { pa := ⟨fun _ => none, fun n => List.replicate n 0⟩, pu := ⟨fun _ => none, fun n => List.replicate n 0⟩
-    compute := fun _ => 1, keys := fun _ id => [id], actionID := fun tx i => tx ++ [UInt8.ofNat i],
-    txID := fun b => b.take 1, chunks := fun _ => 2, authCompute := fun _ => 5
+    compute := fun _ => 1, keys := fun _ _ id => [id], actor := fun _ => [], actionID := fun tx i => tx ++ [UInt8.ofNat i],
+    txID := fun b => b.take 1, chunks := fun _ => some 2, authCompute := fun _ => 5
     sponsorKeys := fun _ => [[9]] }
 def exRules : Rules := ⟨1, 5, 2, 20, 5, 10, 3, [2]⟩
 def exTx : Tx Nat Nat := ⟨⟨0, zeros 32, zeros 8⟩, [3, 3], 4⟩
-example : (estimateUnits exEnv exRules exTx.actions 4 5).isSome = true := by
-  simp [estimateUnits, checked, exEnv, exRules, exTx, storage, sum, maxU64, withIdx]
-example : Assumptions exEnv exRules exTx 4 5 := by
-  refine ⟨by simp [exEnv, exTx], by simp [exEnv], rfl, by intros; simp [exEnv], by simp [exTx], by simp [exTx, zeros], by simp [exTx, zeros], ?_⟩
+example : (estimateUnits exEnv exRules exTx.actions [] 4 5).isSome = true := by
+  simp [estimateUnits, checked, exEnv, exRules, exTx, storage, sum, maxU64, withIdx, mapM?]
+example : Assumptions exEnv exRules exTx [] 4 5 := by
+  refine ⟨rfl, by simp [exEnv, exTx], by simp [exEnv], rfl, by intros; simp [exEnv], by simp [exTx], by simp [exTx, zeros], by simp [exTx, zeros], ?_⟩
   have h3 : sizeUint 3 = 1 := sizeUint_small (by omega)
   have h4 : sizeUint 4 = 1 := sizeUint_small (by omega)
   simp [exEnv, exTx, actionFrame, sum, maxBaseSize, h3, h4]
+
+/-- `GenerateTransaction` does return a transaction in the example environment -/
+example : (generateTransaction exEnv ⟨fun _ => exRules, fun _ => zeros 32, fun t => t⟩ ⟨0, 1, 4, 1, 5⟩ 7 [3, 3]
+    ⟨fun _ => 4, [], 4, 5⟩).isSome = true := by
+  simp [generateTransaction, estimateUnits, mulSumChecked, mulSum, checked, exEnv, exRules, storage, sum,
+    maxU64, withIdx, mapM?]
 
 end HyperModel.Props.C14
